@@ -215,6 +215,32 @@ def check_program(case):
                     viols.append(dict(assertion="strands-separate", tags=["program"], message=f"-seq {names} -dsdna: bonds {bonds} expected {wantb}", case=case1, detail={}))
                 if n >= 2:
                     keys.append(f"prog:{mode}:{seq}")
+    # the strand given as a .json residue graph whose nodes are listed in another order than their ids (residue ids given):
+    # the completed molecule does not depend on the listing order
+    for seq in ("ACG", "GATC", "TTGCA"):
+        n = len(seq)
+        for mode in ("ter", "plain"):
+            names = names_for(seq, mode)
+            rg = dict(n=n, edges=[[i, i + 1] for i in range(n - 1)], resids=[1 + i for i in range(n)], resnames=names)
+            outs = {}
+            for oname, perm in (("ascending", list(range(n))), ("descending", list(range(n))[::-1]), ("rotated", list(range(1, n)) + [0]),
+                                ("interleaved", list(range(0, n, 2)) + list(range(1, n, 2)))):
+                evals += 1
+                case1 = {"prog": True, "seq": seq, "mode": mode, "listing": oname}
+                with H.tempdir() as d:
+                    r = H.run_gen_params(d, [("dna.ff", ff_text)], graph=H.build_resgraph(rg, insertion=perm), dsdna=True)
+                    if r["exc"] is not None:
+                        from ..runner import crash_violation
+                        viols.append(crash_violation(r["exc"], case1, assertion="gen_params-dsdna-accepts-valid-strand", tags=["json-listing-order"]))
+                        continue
+                    itp = H.read_itp_plain(r["itp_path"])
+                outs[oname] = ([(a["resid"], a["resname"]) for a in itp["atoms"]],
+                               sorted(tuple(sorted(int(x) for x in tok[:2])) for tok, _ in itp["inter"].get("bonds", [])))
+                want = [(i + 1, nm) for i, nm in enumerate(names)] + [(n + k, ref_complement_name(names[n - k])) for k in range(1, n + 1)]
+                if outs[oname][0] != want and len(viols) < 20:
+                    viols.append(dict(assertion="dsdna-itp-lists-strand-and-complement", tags=["json-listing-order"],
+                                      message=f".json strand {names} with its nodes listed {oname}, -dsdna: residues {outs[oname][0]} expected {want}", case=case1, detail={}))
+            keys.append(f"prog-json:{mode}:{seq}")
     return dict(evals=evals, keys=keys, violations=viols, stats={"programs": evals}, sample={"program_level": True, "inputs": evals})
 
 
@@ -222,7 +248,8 @@ def run_case(case):
     if case.get("prog"):
         if "seq" in case:
             out = check_program(case)
-            out["violations"] = [v for v in out["violations"] if v["case"].get("seq") == case["seq"] and v["case"].get("mode") == case["mode"]]
+            out["violations"] = [v for v in out["violations"] if v["case"].get("seq") == case["seq"] and v["case"].get("mode") == case["mode"]
+                                 and v["case"].get("listing") == case.get("listing")]
             return out
         return check_program(case)
     if "seqs" not in case:  # replay of a single sub-case
